@@ -230,3 +230,48 @@ def ref_default(target: int, wrapper: int, t: int, b: bool, i: int, f: int, s: i
     if want is None:
         return prop.default is None
     return prop.default is not None and prop.default.python_code == want.python_code
+
+
+# ------------------------------------------------------------------------------------------------ default of a union
+_UNION_SCHEMAS = (
+    {"oneOf": [{"type": "integer"}, {"type": "string"}]},
+    {"anyOf": [{"type": "boolean"}, {"type": "integer"}]},
+    {"oneOf": [{"type": "string", "format": "date"}, {"type": "integer"}]},
+    {"type": ["number", "null"]},
+    {"oneOf": [{"type": "string", "enum": ["a", "b"]}, {"type": "integer"}]},
+)
+_UNIONS = tuple(property_from_data(name="u", required=False, data=oai.Schema.model_validate(u), schemas=Schemas(), parent_name="P", config=_CFG)[0] for u in _UNION_SCHEMAS)
+
+
+def union_default(u: int, t: int, b: bool, i: int, f: int, s: int) -> bool:
+    """
+    The default of a union is converted by the first member that accepts it (the same rule decoding follows): the
+    emitted source is what that member's own convert_value emits; a value no member accepts is a diagnostic, and a
+    schema with such a default does not build.
+    pre: 0 <= u < 5 and 0 <= t <= 6 and 0 <= i < 4 and 0 <= f < 7 and 0 <= s < 24
+    post: _
+    """
+    prop = _pick(_UNIONS, u)
+    if isinstance(prop, PropertyError):
+        return False
+    v = _json_value(t, b, i, f, s)
+    want = None
+    accepted = False
+    for m in prop.inner_properties:
+        r = m.convert_value(v)
+        if not isinstance(r, PropertyError):
+            want, accepted = r, True
+            break
+    got = prop.convert_value(v)
+    if v is None:
+        return got is None
+    if not accepted:
+        ok = isinstance(got, PropertyError)
+    else:
+        ok = not isinstance(got, PropertyError) and (got is None) == (want is None) and (got is None or got.python_code == want.python_code)
+    # the builder agrees with convert_value: an unacceptable default is a PropertyError, not a property
+    sch = dict(_pick(_UNION_SCHEMAS, u))
+    if isinstance(v, (list, dict)):
+        return ok
+    built, _ = property_from_data(name="u", required=False, data=oai.Schema.model_construct(**{**oai.Schema.model_validate(sch).__dict__, "default": v}), schemas=Schemas(), parent_name="P", config=_CFG)
+    return ok and isinstance(built, PropertyError) == (not accepted)
